@@ -7,6 +7,7 @@ func init() {
 		Run: func(p *Prog, r *Report) {
 			eng := sharedEngine(p)
 			rulesExpansion(p, r, eng)
+			ruleX4(p, r, "X4")
 		},
 		Trusted: []string{"go/ssa lowering", "the abstract interpreter's shape tables are derived from the node construction sites of the current tree"},
 	})
